@@ -292,8 +292,9 @@ def rule_state_mode(repo, rule):
 
 def run(repo, check):
     from sa.rules import c02
-    check.run_rule(rule_r1, repo)
-    check.run_rule(rule_r2, repo)
+    # (R1 / R2 of the first rounds - symbolic case analysis of the compressed siblings - generated infeasible paths on refactored code
+    #  (a flag computed before its use, a helper returning two flags) and are replaced by the column round-trip fold R12, which decides
+    #  the same obligations on the values actually written and read)
     check.run_rule(rule_r3, repo)
     check.run_rule(rule_r10, repo)
     check.run_rule(rule_r4, repo)
